@@ -4,11 +4,11 @@ import numpy as np
 from .. import core, repair as RP, oracle as O, util as U
 
 PID = 'C10'
-OPTS = [(False, False, 1000), (True, True, 1000), (True, False, 1), (False, True, 1)]   # (indel, with check, heap)
+OPTS = [(False, False, 1000), (True, True, 1000), (True, False, 1), (False, True, 1), (True, 'long', 1000)]   # (indel, with check, heap)
 
 
 def rep_case(r, k, G, acc, start, s, indel, with_chk, heap):
-    chk = O.vt(s[::-1], 3) if with_chk else None        # "some" check: usually not the strand's own
+    chk = (O.vt(s[::-1], 40) if with_chk == 'long' else O.vt(s[::-1], 3)) if with_chk else None        # "some" check: usually not the strand's own
     st, res, loops = RP.call(s, acc, start, k, chk=chk, indel=indel, heap=heap)
     r.trans += 1
     r.evals += 1
@@ -159,6 +159,26 @@ def _w_long(chunk):
     return r
 
 
+def _w_dropped(chunk):
+    """Graphs of alternating orders, each in a freshly allocated array that is released before the
+    next one is built (what a loop over graphs does); a handful of repairs on each."""
+    r = core.Res()
+    seq = chunk
+    for rnd in range(3):
+        for k, G, t in seq:
+            acc = np.array(G, dtype=int)
+            live = sorted(O.has_arcs(G))
+            start = live[rnd % len(live)]
+            w = U.rule_walk(G, start, 4 * k + 6, 1, rnd)
+            for s in (w, w[:k + 1] + ('A' if w[k + 1] != 'A' else 'C') + w[k + 2:], w[::-1], 'T' * (2 * k + 2)):
+                if len(s) >= k:
+                    rep_case(r, k, G, acc, start, s, True, False, 1000)
+                    rep_case(r, k, G, acc, start, s, False, True, 1000)
+            del acc
+            r.ctr['dropped_arrays'] += 1
+    return r
+
+
 def long_jobs(quick):
     from ..coder import LITERAL
     graphs = [(2, [list(x) for x in LITERAL], 1), (1, O.from_mask({0, 1}, 1), 0), (1, O.from_mask({0, 1, 2}, 1), 2)]
@@ -169,7 +189,10 @@ def long_jobs(quick):
     jobs = []
     for k, G, start in graphs:
         for m in range(0, 131 if k <= 2 else 71):
-            for indel, heap in ((False, 1000), (True, 1000)) if (quick and m > 12) else ((False, 1000), (True, 1000), (True, 1), (False, 5000)):
+            opts = ((False, 1000), (True, 1000)) if (quick and m > 12) else ((False, 1000), (True, 1000), (True, 1), (False, 5000))
+            if m <= 45:      # heap limits that a prefix of the candidate product hits exactly
+                opts = opts + ((False, 2), (False, 8), (False, 16), (False, 64), (False, 27), (False, 81), (True, 49), (True, 12))
+            for indel, heap in opts:
                 if heap == 5000 and m > 12:
                     continue
                 jobs.append((k, G, start, m, indel, heap))
@@ -184,7 +207,7 @@ def check_case(r, kind, case):
     if kind == 'sparse':
         sparse_case(r, case['k'], G, case['start'], case['sparse_sites'], case['indel'])
         return
-    rep_case(r, case['k'], G, U.A(G), case['start'], case['s'], case['indel'], case['chk'] is not None, case['heap'])
+    rep_case(r, case['k'], G, U.A(G), case['start'], case['s'], case['indel'], ('long' if case['chk'] is not None and len(case['chk']) > 10 else case['chk'] is not None), case['heap'])
 
 
 def _w(chunk):
@@ -213,6 +236,13 @@ def run(ctx):
     items.sort(key=lambda x: -(4 ** x[0]))
     ctx.pmap(_w, [(n_by_k, [c]) for c in items if c[0] >= 3] + [(n_by_k, c) for c in core.chunks_of([c for c in items if c[0] < 3], 4)])
     ctx.pmap(_w_long, core.chunks_of(long_jobs(q), 6))
+    by_k = {}
+    for it in fam3 + RP.k1_generated()[:6] + RP.filter_graphs((4,), small=True)[:3]:
+        by_k.setdefault(it[0], []).append(it)
+    seqs = []
+    for i in range(4):
+        seqs.append([by_k[k][(i + j) % len(by_k[k])] for j, k in enumerate((4, 3, 2, 1, 3, 2, 4, 1, 2)) if k in by_k])
+    ctx.pmap(_w_dropped, seqs)
     ctx.pmap(_w_sparse, core.chunks_of(sparse_jobs(), 4))
     ctx.guard('more than 64 single-candidate errors repaired through the product path', ctx.res.mx.get('sparse_detected', 0) > 64 and ctx.res.ctr['sparse_product'] > 10)
     ctx.guard('long family takes both return paths', ctx.res.ctr['long_fallback'] > 10 and ctx.res.ctr['long_product'] > 10)
